@@ -386,8 +386,17 @@ def main(ctx: Ctx):
     shapes = UNIVERSES[ctx.seed % len(UNIVERSES)]
     pairs = list(itertools.product(A, A))
     if quick:
+        # naive sampling over-exercises the error paths (~80% unbuildable): half of the sample is drawn among
+        # pairs whose key sets are compatible for a composition or a conjunction
+        sig = {}
+        for a in A:
+            b, _ = observe(a, shapes, None)
+            sig[a] = (tuple(b[1]), tuple(b[2])) if b[0] == "ok" else None
+        compat = [(a, b) for a, b in pairs if sig[a] and sig[b] and (sig[a][0] == sig[b][1] or sig[a][0] == sig[b][0])]
         ctx.rng.shuffle(pairs)
-        pairs = pairs[:1500]
+        ctx.rng.shuffle(compat)
+        pairs = pairs[:750] + compat[:750]
+        ctx.cov["sampled_compatible_pairs"] = min(750, len(compat))
     for a, b in pairs:
         for t in (("comp", a, b), ("conj", [a, b]), ("stack", [a, b])):
             compare(ctx, t, shapes)
